@@ -83,6 +83,10 @@ class World:
             elif op == "represent":
                 m = r.randint(1, min(2 ** n, r.choice([6, 6, 12])))
                 keys = r.sample(range(2 ** n), m)
+                prev = [x["args"]["keys"] for x in steps if x["op"] == "represent"]
+                if prev and r.random() < 0.4:
+                    keys = list(r.choice(prev))   # the same outcomes in the same order, other weights (also zeros)
+                    m = len(keys)
                 style = r.choice(["rand", "uniform", "halves", "tiny", "zeros", "overshoot", "overshoot"])
                 ws = []
                 n_over = None
@@ -118,7 +122,13 @@ class World:
                 ws = [r.choice([1, 2, 3, 0.5, 1.5, 1 / 3, r.uniform(0.01, 10)]) for _ in range(m)]
                 if r.random() < 0.3:
                     ws = [1.0] * m
-                s = {"op": "discretise", "args": {"weights": ws, "total": r.choice([1, 2, 3, 7, 10, 100, 1000, 12345, m, m + 1, max(1, m - 1)])}}
+                total = r.choice([1, 2, 3, 7, 10, 100, 1000, 12345, m, m + 1, max(1, m - 1)])
+                if r.random() < 0.25:
+                    # fractional weights that already sum exactly to the total
+                    ws = [r.choice([0.5, 1.5, 2.5, 0.25, 0.75, 1.0]) for _ in range(m)]
+                    ws.append((-sum(ws)) % 1 or 1.0)
+                    total = int(round(sum(ws)))
+                s = {"op": "discretise", "args": {"weights": ws, "total": total}}
             s["client"] = r.randrange(cfg["clients"])
             s["rs"] = r.getrandbits(32)
             steps.append(s)
